@@ -529,9 +529,14 @@ func run(c *vf.Ctx) {
 			}
 		}
 		stageB(c, progs, 1, near(n), &idx)
-		// ... and the same neighbourhoods of 2-row programs with 2 preemptions
-		tiny := programsN(true, 2)
-		stageB(c, tiny, 2, near(len(tiny)), &idx)
+		// ... and 2-row programs against themselves and the mixed program with 2 preemptions
+		tiny := programsN(false, 2)
+		stageB(c, tiny, 2, func(i int) []int {
+			if i == len(tiny)-1 {
+				return []int{i}
+			}
+			return []int{i, len(tiny) - 1}
+		}, &idx)
 	}
 	stageC(c)
 }
@@ -541,7 +546,7 @@ func replay(raw json.RawMessage) (string, bool) {
 	if err := json.Unmarshal(raw, &p); err != nil {
 		return err.Error(), false
 	}
-	progs := append(append(append(programs(true), programsN(false, 5)...), programsN(true, 2)...), programs(false)...)
+	progs := append(append(append(append(programs(true), programsN(false, 5)...), programsN(true, 2)...), programsN(false, 2)...), programs(false)...)
 	find := func(n string) *program {
 		for i := range progs {
 			if progs[i].name == n {
